@@ -38,6 +38,8 @@ def report_issues(rep, spec, walks, results, source, drift_prefix=None):
             k = iss.get("step", len(w["steps"]) - 1)
             robj = dict(spec=spec, source=source, walk=dict(first=w.get("first"), init=w.get("init"), steps=w["steps"][:k + 1]),
                         failing_step=k)
+            if "first" not in w:
+                robj["job"] = w          # scenario-style cases are self-contained job records
             if iss["kind"] == "violation":
                 rep.violation(iss["signature"], iss.get("detail"), robj, kf=iss.get("kf"))
             elif iss["kind"] == "drift":
